@@ -39,6 +39,11 @@ def main(tier):
     for scn in scns:
         ev, facts = dops.run_case(scn)
         cases.append((scn, None, "none"))
+        if scn.threads > 1 and scn.tdev == "other":
+            # several workers moving into one new directory by copy: a single failure in one of them (the calls hit vary with the
+            # interleaving; the end state is judged, and the trace whenever the specification can follow it)
+            for k in range(1, facts["mut_positions"] + 1, 1 if thorough else 2):
+                cases.append((scn, f"mut||{k}|fail={dops.ERRNOS['EIO']}", "fail1"))
         if scn.names or scn.threads > 1:
             continue
         errs = ["EIO", "ENOSPC", "EXDEV", "EPERM"] if thorough else ["EIO", "EXDEV"]
